@@ -537,11 +537,13 @@ def parse_template(text):
                         if not m:
                             raise ExtractError(f"line {ln}: bad CLOSURE clause")
                         cur.closure = (int(m.group(1)), [t.text for t in code_tokens(tokenize(m.group(2)))])
+                        cur.order = getattr(cur, "order", []) + ["closure"]
                     elif extra.startswith("STMTS"):
                         m = re.match(r"STMTS\s+`(.*?)`\s*\.\.\s*`(.*?)`\s*$", extra)
                         if not m:
                             raise ExtractError(f"line {ln}: bad STMTS clause")
                         cur.stmts = ([t.text for t in code_tokens(tokenize(m.group(1)))], [t.text for t in code_tokens(tokenize(m.group(2)))])
+                        cur.order = getattr(cur, "order", []) + ["stmts"]
                 cur.start_line = ln
             elif d.startswith("END"):
                 if not cur:
@@ -610,10 +612,13 @@ def fetch_real(repo, blk, unit_substs):
         # statement / closure anchors are matched on the text without attributes and log statements
         ct = rule_R1_attrs(ct, log)
         ct = rule_R2_logs(ct, log)
-    if blk.stmts:
-        ct = slice_statements(ct, blk.stmts[0], blk.stmts[1], blk.name)
-    if blk.closure:
-        ct = slice_closure(ct, blk.closure[0], blk.closure[1], blk.name)
+    # statement-level and closure-level slicing compose in the order the FROM line gives them
+    # (`CLOSURE .. :: STMTS ..` = statements of the closure's body)
+    for what in (getattr(blk, "order", None) or ["stmts", "closure"]):
+        if what == "stmts" and blk.stmts:
+            ct = slice_statements(ct, blk.stmts[0], blk.stmts[1], blk.name)
+        if what == "closure" and blk.closure:
+            ct = slice_closure(ct, blk.closure[0], blk.closure[1], blk.name)
     raw_text = " ".join(t.text for t in ct)
     ct = rule_R1_attrs(ct, log)
     ct = rule_R2_logs(ct, log)
